@@ -9,6 +9,7 @@ execute  : World.step(rec) -> outcome; raises core.Violation.  No PRNG in execut
 import copy
 import hashlib
 import operator
+import signal
 import sys
 import warnings
 
@@ -38,6 +39,17 @@ def catalogue():
             groups.setdefault(e.target, []).append(e)
         _CAT['groups'] = groups
     return _CAT
+
+
+class CallTimeout(BaseException):
+    """A single library call exceeded the wall-clock guard (harness safety net, not a verdict)."""
+
+
+def _on_alarm(signum, frame):
+    raise CallTimeout()
+
+
+CALL_GUARD_S = 5.0
 
 
 class _Null:
@@ -170,6 +182,8 @@ class World:
         """-> ('ok', result) | ('raise', exception)"""
         old = sys.stdout
         sys.stdout = _NULL_OUT
+        signal.signal(signal.SIGALRM, _on_alarm)
+        signal.setitimer(signal.ITIMER_REAL, CALL_GUARD_S)
         try:
             with np.errstate(all='ignore'), warnings.catch_warnings():
                 warnings.simplefilter('ignore')
@@ -184,7 +198,12 @@ class World:
             return 'ok', r
         except Exception as e:                                       # noqa: BLE001
             return 'raise', e
+        except CallTimeout as e:
+            # e.g. numpy converting a self-referential list; counted, never a verdict by itself
+            self.probe('harness_call_guard_fired')
+            return 'raise', e
         finally:
+            signal.setitimer(signal.ITIMER_REAL, 0)
             sys.stdout = old
 
     def _callable(self, rec, recv):
@@ -332,6 +351,11 @@ class World:
 
         out = {'r': tag}
         rsnap = None
+        if tag == 'raise:CallTimeout':
+            # whatever made this call run away (e.g. a self-referential value list) must not
+            # be fed to further calls: evict the operands from the heap
+            ids = {id(v) for _, v in argvals}
+            self.heap = [h for h in self.heap if id(h.value) not in ids]
         if outcome == 'ok':
             rsnap = values.snapshot(res)
             out['res'] = values.structure(rsnap)
@@ -343,7 +367,7 @@ class World:
                 if isinstance(v, np.ndarray) and v.size <= HEAP_MAX_ARRAY and \
                         not any(h.value is v for h in self.heap):
                     self.heap.append(H(v, 'arg'))
-        if how not in ('mut', 'iop') and rec['name'] not in cat.RANDOM:
+        if how not in ('mut', 'iop') and rec['name'] not in cat.RANDOM and tag != 'raise:CallTimeout':
             inputs = {'recv': recv, 'args': args, 'kwargs': kwargs}
             self.history.append({'rec': rec, 'inputs': inputs,
                                  'insnap': values.snapshot([recv, args, kwargs]),
@@ -870,4 +894,5 @@ def summarise(js, raw):
         'callables_never_reached': never,
         'callables_without_template': sorted(e.key for e in C['entries'] if not e.from_table),
         'call_outcome_pairs': shapes,
+        'harness_call_guard_fired': js.get('harness_call_guard_fired', 0),
     }
